@@ -56,6 +56,7 @@ fn main() {
     let args = Args::parse();
     let mut sh = Shard::new("C02", &args);
     ev::set_hook(Some(yield_hook));
+    vh::shard::quiet_panics();
     let n = args.cases(64, 2_000);
     for i in 0..n {
         let case = args.case_id(i);
@@ -95,25 +96,32 @@ fn run_case<const N: usize>(sh: &mut Shard, case: u64, rng: &mut Rng, args: &Arg
         // TX
         let done = &done;
         let net_tx = net_tx;
+        let violations_tx = &violations;
         s.spawn(move || {
             while !done.load(Ordering::Acquire) {
-                let mut any = false;
-                while let Some(f) = tx.next_sendable_frame() {
-                    any = true;
-                    let mut b = vec![];
-                    let _ = f.send_blocking(|bytes| {
-                        b = bytes.to_vec();
-                        Ok(bytes.len())
-                    });
-                    let _ = net_tx.send(b);
-                }
-                if !any {
-                    std::thread::yield_now();
+                let r = std::panic::catch_unwind(std::panic::AssertUnwindSafe(|| {
+                    let mut any = false;
+                    while let Some(f) = tx.next_sendable_frame() {
+                        any = true;
+                        let mut b = vec![];
+                        let _ = f.send_blocking(|bytes| {
+                            b = bytes.to_vec();
+                            Ok(bytes.len())
+                        });
+                        let _ = net_tx.send(b);
+                    }
+                    any
+                }));
+                match r {
+                    Ok(true) => {}
+                    Ok(false) => std::thread::yield_now(),
+                    Err(p) => violations_tx.lock().unwrap().push(("C02:panic:free-running:tx-thread".into(), vh::shard::panic_text(&p))),
                 }
             }
         });
         // RX
         let net_rx = net_rx;
+        let violations_rx = &violations;
         s.spawn(move || {
             let mut r = Rng::new(seed ^ 0xABCD);
             loop {
@@ -124,10 +132,16 @@ fn run_case<const N: usize>(sh: &mut Shard, case: u64, rng: &mut Rng, args: &Arg
                             d.data = resp_bytes(tag, d.data.len());
                             d.wkc = resp_wkc(tag);
                         });
-                        let _ = rx.receive_frame(&resp);
-                        if r.chance(1, 5) {
-                            // duplicate
+                        let dup = r.chance(1, 5);
+                        let res = std::panic::catch_unwind(std::panic::AssertUnwindSafe(|| {
                             let _ = rx.receive_frame(&resp);
+                            if dup {
+                                // duplicate
+                                let _ = rx.receive_frame(&resp);
+                            }
+                        }));
+                        if let Err(p) = res {
+                            violations_rx.lock().unwrap().push(("C02:panic:free-running:rx-thread".into(), vh::shard::panic_text(&p)));
                         }
                     }
                     Err(_) => {
@@ -142,6 +156,7 @@ fn run_case<const N: usize>(sh: &mut Shard, case: u64, rng: &mut Rng, args: &Arg
         for a in 0..apps {
             let (pl, violations, completed, abandoned, views, live_apps, done) = (&pl, &violations, &completed, &abandoned, &views, &live_apps, done);
             s.spawn(move || {
+              let body = std::panic::catch_unwind(std::panic::AssertUnwindSafe(|| {
                 let mut rng = Rng::new(seed).fork(a as u64 + 77);
                 let waker = Waker::from(Arc::new(Unpark(std::thread::current())));
                 let mut cx = Context::from_waker(&waker);
@@ -214,6 +229,10 @@ fn run_case<const N: usize>(sh: &mut Shard, case: u64, rng: &mut Rng, args: &Arg
                     }
                 }
                 held.clear();
+              }));
+                if let Err(p) = body {
+                    violations.lock().unwrap().push(("C02:panic:free-running:application-thread".into(), vh::shard::panic_text(&p)));
+                }
                 if live_apps.fetch_sub(1, Ordering::AcqRel) == 1 {
                     done.store(true, Ordering::Release);
                 }
